@@ -14,6 +14,14 @@ cygwin, sun and sun-color use it — `Tcell.Props.C01.noCornerTrick_db` lists th
   resolved to the screen style), two columns wide for a wide rune, a blank for a wide rune in the last
   column, with the cursor visible at the requested cell, or hidden / parked bottom-right when off-screen.
 
+`hct : c.Plain` = no corner trick **and** the pinned drawCell (`c.guardLocked = false`, see
+`Tcell.currentGuardsLockedNeighbour`).  For the tree repaired by fixes/C13-wide-left-of-locked.patch
+(`guardLocked = true`) a wide rune whose right neighbour is locked is shown as a blank of width 1 — the policy of the
+last column — and drawn again, two columns wide, by the first Show after the neighbour is unlocked: proved on the witness
+history (`Tcell.Props.C13.wide_left_of_locked_kept_repaired`, `unlock_repaints_wide_repaired`), stated as
+`Tcell.Props.C13.DisplaysRepairedCell`, checked by the oracle of engine `draw`; the history theorems below have not
+been carried over to that variant yet.
+
 The theorems are named `…_partial` because two things are not covered by them: (1) the four corner-trick
 entries, (2) Layer B — that the *bytes* rendered for each abstract command drive a byte-level ECMA-48
 terminal (`Tcell.Spec.Ecma48`) the way `ATerm.apply` says; that layer is validated on every run by the
